@@ -23,7 +23,7 @@ Definition mtarget_eqb (a b : mtarget) : bool :=
 Definition mkey_eqb (a b : mkey) : bool :=
   match a, b with
   | KExtentBytes, KExtentBytes | KBufferBytes, KBufferBytes | KCap, KCap | KUnionCount, KUnionCount | KPortId, KPortId
-  | KFullName, KFullName => true
+  | KFullName, KFullName | KConst, KConst => true
   | _, _ => false
   end.
 
@@ -41,7 +41,7 @@ Definition key_spec (k : mkey) (t : ty) : Z :=
   | KBufferBytes => Z.of_nat (bmax t) / 8
   | KCap => src_val SrcCapacity t
   | KUnionCount => src_val SrcFieldCount t
-  | KPortId | KFullName => -1
+  | KPortId | KFullName | KConst => -1
   end.
 
 (* syntactic acceptability of a rendering expression for a key *)
@@ -66,6 +66,7 @@ Definition good_exp (k : mkey) (e : mexp) : bool :=
   | KUnionCount => match e with MSrc SrcFieldCount => true | _ => false end
   | KPortId => match e with MSrc SrcPortId => true | _ => false end
   | KFullName => match e with MSrc SrcFullName => true | _ => false end
+  | KConst => false
   end.
 
 (* every (target, key) pair the generated code is expected to export *)
@@ -77,6 +78,49 @@ Definition required_exports : list (mtarget * mkey) :=
 Definition table_ok : bool :=
   forallb (fun x => good_exp (ex_key x) (ex_exp x)) exported_table
   && forallb (fun '(tg, k) => negb (match exports_of tg k with [] => true | _ => false end)) required_exports.
+
+(* ---- emit conditions ---- *)
+Definition emits_of (tg : mtarget) (k : mkey) : list (list mcond) :=
+  map em_conds (filter (fun x => mtarget_eqb (em_tgt x) tg && mkey_eqb (em_key x) k) emit_table).
+
+Definition good_emit (k : mkey) (cs : list mcond) : bool :=
+  match k, cs with
+  | KPortId, [CondHas SrcPortId] | KPortId, [CondNotNone SrcPortId] => true
+  | KConst, [CondEach] => true
+  | KCap, [CondEachArray] => true
+  | KExtentBytes, [CondNotService] | KBufferBytes, [CondNotService] => true
+  | _, _ => false
+  end.
+
+Definition required_emits : list (mtarget * mkey) :=
+  [(TgtC, KPortId); (TgtCpp, KPortId); (TgtPy, KPortId); (TgtC, KConst); (TgtCpp, KConst); (TgtPy, KConst); (TgtC, KCap);
+   (TgtC, KExtentBytes); (TgtC, KBufferBytes)].
+
+Definition emit_ok : bool :=
+  forallb (fun x => good_emit (em_key x) (em_conds x)) emit_table
+  && forallb (fun '(tg, k) => match emits_of tg k with [_] => true | _ => false end) required_emits.
+
+(* Jinja truth of the scanned condition for a type whose fixed port id is p (None = no fixed port id) *)
+Definition port_cond_holds (c : mcond) (p : option Z) : option bool :=
+  match c with
+  | CondHas SrcPortId | CondNotNone SrcPortId => Some (match p with Some _ => true | None => false end)
+  | CondTruthy SrcPortId => Some (match p with Some 0 | None => false | Some _ => true end)
+  | _ => None
+  end.
+
+Fixpoint port_conds_hold (cs : list mcond) (p : option Z) : option bool :=
+  match cs with
+  | [] => Some true
+  | c :: r => match port_cond_holds c p, port_conds_hold r p with Some a, Some b => Some (a && b) | _, _ => None end
+  end.
+
+(* the fixed port id target tg exports for a type whose DSDL fixed port id is p: Some None = the "no fixed port id" branch,
+   None = the scan is not understood *)
+Definition exported_port (tg : mtarget) (p : option Z) : option (option Z) :=
+  match emits_of tg KPortId, exports_of tg KPortId with
+  | [cs], MSrc SrcPortId :: _ => match port_conds_hold cs p with Some true => Some p | Some false => Some None | None => None end
+  | _, _ => None
+  end.
 
 (* ---- the up-front capacity check as rendered ---- *)
 Definition cmp_eval (op : mcmp) (a b : Z) : bool :=
@@ -109,7 +153,7 @@ Definition walk_ser_st (P : prims) (t : ty) (v : val) (buf : list bool) (cap_byt
        end.
 
 (* ---- constants ---- *)
-Definition int_pty (unsigned : bool) (w : Z) : pty := {| pty_kind := if unsigned then KUInt else KSInt; pty_bit_length := w |}.
+Definition int_pty (unsigned : bool) (w : Z) : pty := mk_pty (if unsigned then KUInt else KSInt) w.
 
 Definition const_int_token (unsigned : bool) (w v : Z) : str := filter_literal_int v (int_pty unsigned w).
 
@@ -148,7 +192,7 @@ Definition old_filter_literal_float_expr (value : Z * Z) : str :=
   else [40%N] ++ py_str_int (fst value) ++ [46; 48; 32; 47; 32]%N ++ py_str_int (snd value) ++ [46; 48; 41]%N.
 
 (* requests of the extracted driver *)
-Definition std_bits_of (w : Z) : option Z := filter_to_standard_bit_length {| pty_kind := KUInt; pty_bit_length := w |}.
+Definition std_bits_of (w : Z) : option Z := filter_to_standard_bit_length (mk_pty KUInt w).
 
 (* decimal text -> Z (driver input; the inverse direction is py_str_int) *)
 Definition z_of_dec (s : str) : Z :=
